@@ -11,3 +11,12 @@ claim('C14',
       'non-dyadic interpolation weights get a 1e-12 relative tolerance; integer expansion between sample points only bracketed; '
       'output dtype identity not covered.', 'DESIGN.md 4/C14')
 na('C18', 'every clause is about values of sin/cos/arcsin/arctan2 or their IEEE rounding: no SMT theory decides them and astropy frame machinery cannot carry symbolic values (DESIGN.md section 5)')
+claim('C06',
+      'sdss_objid / sdss_specobjid / unwrap_objid / unwrap_specobjid are executed symbolically with every numeric field a 64-bit '
+      'bit-vector (array calls, n<=2 quick / 3 thorough) or an int64-bounded Python int (scalar calls): the solver proves, for ALL field '
+      'tuples at once, that in-range fields give exactly the documented shift-or layout, that unwrap(pack) returns the fields and '
+      'pack(unwrap(id)) the id for every 64-bit id, that scalar and array calls agree, and that ValueError is raised exactly when a field is '
+      'out of range (and nothing else is raised). Per-field sweeps cannot cover 2^64 tuples; bit-vector reasoning does.',
+      'numpy int64/uint64 = two\'s-complement bit-vectors with numpy.result_type promotion; numpy.recarray replaced by a record stand-in '
+      'with numpy\'s casting-on-assignment rule; arrays longer than 3 and Python ints beyond 64 bits are outside the claim.',
+      'DESIGN.md 4/C06')
